@@ -23,6 +23,7 @@ type c03Case struct {
 	N       int      `json:"n"`  // delete/erase: length; slice: end as spelled (may be negative)
 	Feats   []Feat   `json:"feats"`
 	GenBank bool     `json:"genbank"`
+	Contig  bool     `json:"contig,omitempty"` // GenBank carrier: the record also holds a CONTIG line (as assembled records do)
 	Circ    bool     `json:"circular,omitempty"`
 	AA      bool     `json:"aa,omitempty"`   // molecule AA => counter word "residues"
 	Refs    []string `json:"refs,omitempty"` // REFERENCE info strings
@@ -63,6 +64,9 @@ func (c c03Case) build() gts.Sequence {
 		Date: seqio.Date{Year: 2020, Month: 1, Day: 1}, Definition: "d", Accession: "ACC", Version: "ACC.1"}
 	for k, info := range c.Refs {
 		fields.References = append(fields.References, seqio.Reference{Number: k + 1, Info: info, Title: fmt.Sprintf("t%d", k)})
+	}
+	if c.Contig {
+		fields.Contig = seqio.Contig{Accession: "CTG000001.1", Region: gts.Segment{0, c.L}}
 	}
 	return seqio.GenBank{Fields: fields, Table: featsToGts(c.Feats), Origin: seqio.NewOrigin(data)}
 }
@@ -476,6 +480,17 @@ func c03Check(c c03Case) *Violation {
 		if !ok {
 			return viol("carrier", "%s: result is %T, not a GenBank record", name, out)
 		}
+		// the record as it is written: the length it declares is that of the residues it holds (whether the text reads
+		// back is C01's matter: this property's tables hold locations outside the writable domain)
+		if len(out.Bytes()) > 0 {
+			var text string
+			if pi := guard(func() { text = gb.String() }); pi != nil {
+				return panicViolation(name+": writing the result", pi)
+			}
+			if m := locusRe.FindStringSubmatch(text); m == nil || m[1] != fmt.Sprint(len(out.Bytes())) {
+				return viol("written-length", "%s: the result holds %d residues, its LOCUS line reads %q", name, len(out.Bytes()), clipStr(text, 80))
+			}
+		}
 		if c.Op == "slice" {
 			if gb.Fields.Topology != gts.Linear {
 				return viol("topology", "%s: a slice must be linear, got %s", name, gb.Fields.Topology)
@@ -754,6 +769,7 @@ func c03Gen(t *rapid.T) c03Case {
 		}
 	}
 	c.GenBank = rapid.Bool().Draw(t, "genbank")
+	c.Contig = c.GenBank && rapid.IntRange(0, 2).Draw(t, "contig") == 0
 	if c.GenBank {
 		c.Circ = rapid.Bool().Draw(t, "circ")
 		c.AA = rapid.IntRange(0, 3).Draw(t, "aa") == 0
